@@ -8,7 +8,8 @@
    The network is the designed state of every element (uid -> elem, Model/Verdict.v section 5: an Edfa carries its
    current effective gain).  A request comes with its route (computed beforehand from the topology, which no propagation
    touches) and the list of loads it propagates on ITS copy of the path, one after the other (one for a fixed mode, one per
-   (baud rate, offset) for the mode loop — that copy is shared inside the request, finding F6 of C13).
+   (baud rate, offset) for the mode loop — the copy is shared inside the request, and the loop writes the designed gains
+   back before every propagation: Model/Verdict.restore, fix 6c7139d6).
    Definitions only; proofs are in Proofs/Batch.v. *)
 From Coq Require Import QArith.
 From Verif Require Import Prelude Model.Verdict.
@@ -51,13 +52,14 @@ Record request := mkReq {
   q_thr : Q                     (* required signal-to-noise ratio (linear) *)
 }.
 
-(* successive propagations on the same path objects: the path after the last one and the received spectra *)
-Fixpoint run_loads (p : path) (ls : list load) : path * list spectrum :=
+(* successive propagations on the same path objects, the designed gains `d` being written back before each one: the path
+   after the last one and the received spectra *)
+Fixpoint run_loads (d p : path) (ls : list load) : path * list spectrum :=
   match ls with
   | [] => (p, [])
   | l :: t =>
-      let (p', sp) := run_load p l in
-      let (p'', r) := run_loads p' t in
+      let (p', sp) := run_load (restore d p) l in
+      let (p'', r) := run_loads d p' t in
       (p'', sp :: r)
   end.
 
@@ -82,7 +84,7 @@ Definition evaluate (n : network) (rq : request) : result * path :=
   match get_path n (q_route rq) with
   | None => (mkRes (q_id rq) [] [] false None, [])
   | Some p =>
-      let (p', figs) := run_loads p (q_loads rq) in
+      let (p', figs) := run_loads p p (q_loads rq) in
       (mkRes (q_id rq) (q_route rq) figs (feasible (q_thr rq) figs) (Some p'), p')
   end.
 
